@@ -247,6 +247,13 @@ def _str_value(draw, vals, kind):
             return draw(st.sampled_from(ABSENT[kind]))
         return draw(st.sampled_from(known))
 
+    if kind == 'airport' and _p(draw, 6):
+        # a long list (all airports of a region, say): hundreds of codes, most of them not in this database, the ones
+        # that are at the very end
+        n = draw(st.integers(201, 450))
+        filler = [f'{"QRSTUVWXYZ"[i // 100 % 10]}{i % 100:02d}' for i in range(n)]
+        filler = [c for c in filler if c not in known]
+        return filler + [one() for _ in range(draw(st.integers(1, 3)))]
     if _p(draw, 40):
         return one()
     return [one() for _ in range(draw(st.integers(1, 4)))]
@@ -729,6 +736,10 @@ def _materialise(r):
     return r if isinstance(r, int) else list(r)
 
 
+class _ParamsRewritten(Exception):
+    pass
+
+
 def execute(db, qobj, q):
     """Run the query object as the mode says.  Returns (results, exception)."""
     out = []
@@ -738,8 +749,24 @@ def execute(db, qobj, q):
             for _ in range(q['k']):
                 out.append(_materialise(db(qobj)))
         elif mode == 'tosql':
+            held = []
             for _ in range(q['k']):
-                qobj.to_sql()
+                sql, params = qobj.to_sql()
+                held.append((params, list(params)))
+            # what to_sql() handed out earlier belongs to the caller: a later build (also of an edited query) must not
+            # rewrite it
+            import copy as _copy
+
+            other = _copy.copy(qobj)
+            try:
+                other.start_date, other.end_date = _date(17900), _date(17901)
+                other.to_sql()
+            except Exception:  # noqa: BLE001  (an edited copy that cannot be built says nothing about the original)
+                pass
+            for params, snap in held:
+                if list(params) != snap:
+                    raise _ParamsRewritten(f'the parameter list returned by to_sql() was {snap} and became {list(params)} '
+                                           f'after a later build')
             out.append(_materialise(db(qobj)))
         elif mode == 'interleaved':
             r1 = db(qobj)
